@@ -24,6 +24,8 @@ func init() {
 	registerRule("R25", func(c *Ctx) { c.run("R21") })
 	registerRule("R30", func(c *Ctx) { c.run("R21") })
 	registerRule("R35", ruleR35)
+	registerRule("R36", ruleR36)
+	registerRule("R41", ruleR41)
 	registerRule("R39", ruleR39R40)
 	registerRule("R40", func(c *Ctx) { c.run("R39") })
 	registerRule("R37", func(c *Ctx) { c.run("R21") })
@@ -42,7 +44,7 @@ func init() {
 	registerRule("R28", func(c *Ctx) { c.run("R27") })
 
 	registerProp(&propSpec{ID: "C01", Level: "other",
-		Rules: []string{"R01", "R02", "R03", "R05", "R37", "R21", "R22", "R24"},
+		Rules: []string{"R01", "R02", "R03", "R05", "R37", "R21", "R22", "R24", "R41", "R36"},
 		Explain: "Static clauses of 'exact map under any history', decided on the type-checked source of every copy of the tree code (5 generated kinds + collation): " +
 			"R01 every index/slice of a caller-controlled key is dominated by the length fact it needs (so probing an absent key cannot fault on a key index); " +
 			"R02 every success outcome of Search/Delete and the value overwrite of Insert is dominated by the true edge of the full-key comparison with the stored form restoreKey returns; " +
@@ -60,7 +62,7 @@ func init() {
 		NotDecided: "Nothing value-level remains: the property is a textual equality. Trusted: text/template and go/format of the Go release the checker is built with (assumed to agree with the release used to regenerate).",
 		Technique:  "static translation validation: re-render the code-generation template from the generator's AST and diff against the checked-in file", DesignRef: "§4 C19 R34"})
 	registerProp(&propSpec{ID: "C02", Level: "other", DesignRef: "§4 C02",
-		Rules:      []string{"R09", "R08", "R10", "R12", "R06", "R11", "R35", "R39", "R37", "R27"},
+		Rules:      []string{"R09", "R08", "R10", "R12", "R06", "R11", "R35", "R39", "R37", "R27", "R41"},
 		Explain:    "Structural clauses of complete/duplicate-free/sorted iteration: R09 every traversal arm (all, backward, filter, rangeScan, minimum, maximum, the inlined lookups of Search) reads the children of each node kind through the same slot domain, occupancy test and child expression as the canonical byte→child lookup (findChild), forward traversals push in descending and backward in ascending slot order (mirror); R08 keys are restored by undoing exactly the normalisation applied at insertion; R10 constant-range indexes fit their arrays; R12 worklists are seeded only with a non-nil root; R06 popped references are cast under their tag; R11 no loop-carried key position.",
 		NotDecided: "That children inside a 4/16-slot node are kept in ascending byte order (insertPosNode4/16: SWAR/SIMD arithmetic) and that the key encodings are monotone (C07's value-level part)."})
 	registerProp(&propSpec{ID: "C03", Level: "other", DesignRef: "§4 C03",
@@ -76,11 +78,11 @@ func init() {
 		Explain:    "R09 minimum/maximum pick the first/last occupied slot of the same slot domain, with the same occupancy test and child expression, that the traversals enumerate (8 arms); R12 Minimum/Maximum report 'none' exactly on a nil result; R27/R28 TopK/BottomK count per pass and stop after yield returned false, ranging over Backward/All respectively (call-target check); R06 casts under tag facts.",
 		NotDecided: "Nothing beyond C02's value-level remainder (sortedness inside 4/16-slot nodes)."})
 	registerProp(&propSpec{ID: "C08", Level: "other", DesignRef: "§4 C08",
-		Rules:      []string{"R16", "R17", "R08", "R01", "R02", "R03", "R04", "R05", "R06", "R09", "R12", "R26", "R39", "R40"},
+		Rules:      []string{"R16", "R17", "R08", "R01", "R02", "R03", "R04", "R05", "R06", "R09", "R12", "R26", "R39", "R40", "R36"},
 		Explain:    "collation.go is analysed as the sixth copy of the tree algorithm by every kind-generic rule (R01 guarded key indexes, R02 equality on the ORIGINAL string – not the sort key – dominates every success, R03/R04 link/size automaton, R06 tag casts, R09 inlined lookups, R12 nil flows), plus R16: the leaf pairs (key,keyLen) with the original bytes and (colKey,colKeyLen) with the sort key, descent uses only the sort key, restoreKey returns the original, WithCollator stores into the field that sort-key generation reads; R08 one normalisation per role at all entry points.",
 		NotDecided: "That x/text sort keys order like Collator.Compare and are prefix-free (library contract, recorded as assumption)."})
 	registerProp(&propSpec{ID: "C09", Level: "other", DesignRef: "§4 C09",
-		Rules:      []string{"R18", "R08", "R01", "R02", "R03", "R04", "R05", "R06", "R12", "R13"},
+		Rules:      []string{"R18", "R08", "R01", "R02", "R03", "R04", "R05", "R06", "R12", "R13", "R36"},
 		Explain:    "The compound instantiation is analysed by all kind-generic rules; R18/R08: the constructor stores the caller's codec in the field every method reads, every key→bytes conversion is bck.Transform with the SAME result index at Insert, Search, Delete and both Range bounds, stored bytes are decoded with bck.Restore.",
 		NotDecided: "Everything that depends on what the user's codec computes (injectivity, order, prefix-freedom are the property's premise and are recorded as assumptions)."})
 	registerProp(&propSpec{ID: "C14", Level: "other", DesignRef: "§4 C14",
@@ -92,11 +94,11 @@ func init() {
 		Explain:    "Encoder/decoder sibling agreement of the three numeric codecs, per key type and target architecture (constant-folded bits.UintSize branches): R15 the type switches of Transform and Restore have an arm for every term of the constraint's type set; the encoding length equals unsafe.Sizeof of the key type; every encoding/binary call is on BigEndian with the width of the type; the sign-flip constant is exactly 1<<(8W-1) in both directions; float: shift 8W-1, sign constant, the offset is equal in both directions and ≥ 2, and the special codes {NaN→0, -Inf→1, +Inf→2^n-2} form the same table in both directions; R32 every reinterpreting cast is between pointer-free types of fitting size; R05 fixed width (prefix-free, concatenable).",
 		NotDecided: "The sign-magnitude→biased mask arithmetic itself and hence monotonicity/injectivity for every bit pattern: that needs enumeration or a solver, which static analysis excludes."})
 	registerProp(&propSpec{ID: "C10", Level: "other", DesignRef: "§4 C10",
-		Rules:      []string{"R19", "R09", "R10", "R22", "R20", "R37"},
+		Rules:      []string{"R19", "R09", "R10", "R22", "R20", "R37", "R41"},
 		Explain:    "R19 every use of a 4-lane SWAR search result as an index is under result < fill count (the search sees all four lanes, occupied or not), and deleteChild – the one unguarded user – is only called for a byte proven registered by findChild on the same reference; R09 the byte→child lookup of each size class and every inlined copy of it agree; R10 constant-range indexes fit [4]/[16]/[48]/[256]; R22 capacity guards equal the array lengths and shrink thresholds fit the smaller class; R20 each architecture sibling of the 16-lane routines (amd64 asm, arm64 asm, portable Go) makes its result depend on keys, fill count and probe byte, compares unsigned, and stores nothing but the result.",
 		NotDecided: "The SWAR/SIMD bit arithmetic (2^40 / 2^140 inputs): that insertPosNode4/16 return the sorted position and searchNode4 the first matching lane."})
 	registerProp(&propSpec{ID: "C11", Level: "other", DesignRef: "§4 C11",
-		Rules:      []string{"R06", "R07", "R21", "R22", "R23", "R03", "R04", "R24", "R37"},
+		Rules:      []string{"R06", "R07", "R21", "R22", "R23", "R03", "R04", "R24", "R37", "R41"},
 		Explain:    "R06 a reference is only ever read through the layout its tag names (120 casts under tag facts, 48 reference literals pairing pointer type and tag, pool assertions); R07 every kind switch has one arm per inner kind and a panicking default; R21 every grow/shrink copies every header field (prefixLen, childrenLen, prefix) to the replacement before releasing the old node; R22 capacity guards/thresholds are coherent with the array lengths; R23 node fields are written only by the node layer and the Insert split paths; R03/R04 the number of linked leaves moves in step with size on every path; R24 nodes are released only after the slot is relinked.",
 		NotDecided: "That prefix lengths/bytes equal the common extension of the keys below a node after split and merge (byte arithmetic), and history independence of the shape."})
 	registerProp(&propSpec{ID: "C12", Level: "other", DesignRef: "§4 C12",
